@@ -45,8 +45,23 @@ class VFS:
         self.cwd = cwd
         self.files: Dict[str, str] = {}
         self.dirs = {"/", cwd}
+        self.links: Dict[str, str] = {}                # absolute path of a symbolic link -> absolute path of its target
         self._add(cwd, tree)
-        self.ignored = {self.abs(p) for p in ignored}
+        for l_, t_ in list(self.links.items()):        # a link to a file is a file with the target's content
+            self.files[l_] = self.files.get(t_, "")
+        # "!path" in *ignored*: the path matches a negated pattern of .gitignore (re-included: not ignored, but `git check-ignore
+        # -v` reports the match and exits 0 all the same)
+        self.ignored = {self.abs(p) for p in ignored if not str(p).startswith("!")}
+        self.reincluded = {self.abs(str(p)[1:]) for p in ignored if str(p).startswith("!")}
+
+    def realpath(self, p) -> str:
+        a = self.abs(p)
+        for _ in range(8):
+            if a in self.links:
+                a = self.links[a]
+            else:
+                break
+        return a
 
     def _add(self, base, tree):
         for name, v in tree.items():
@@ -54,6 +69,8 @@ class VFS:
             if isinstance(v, dict):
                 self.dirs.add(p)
                 self._add(p, v)
+            elif isinstance(v, tuple) and len(v) == 2 and v[0] == "->":
+                self.links[p] = posixpath.normpath(posixpath.join(base, v[1]))       # ("->", "target relative to the link")
             else:
                 self.files[p] = v
         d = base
@@ -194,7 +211,7 @@ def make_path_class(vfs: VFS, opener=None):
             return vfs.isdir(str(self))
 
         def is_symlink(self):
-            return False
+            return vfs.abs(str(self)) in vfs.links
 
         def is_absolute_(self):
             return str(self).startswith("/")
@@ -213,7 +230,7 @@ def make_path_class(vfs: VFS, opener=None):
             return [(type(self)(d), ds, fs) for d, ds, fs in vfs.walk(str(self), top_down)]
 
         def resolve(self, strict=False):
-            return type(self)(vfs.abs(str(self)))
+            return type(self)(vfs.realpath(str(self)))
 
         def absolute(self):
             return type(self)(posixpath.join(vfs.cwd, str(self)))
@@ -494,8 +511,8 @@ class World:
 
         ospath = Module("os.path", {
             "exists": vfs.exists, "isfile": lambda p: vfs.abs(p) in vfs.files, "isdir": vfs.isdir, "lexists": vfs.exists,
-            "islink": lambda p: False,
-            "abspath": lambda p: vfs.abs(p), "realpath": lambda p, **k: vfs.abs(p),
+            "islink": lambda p: vfs.abs(p) in vfs.links,
+            "abspath": lambda p: vfs.abs(p), "realpath": lambda p, **k: vfs.realpath(p),
             "basename": posixpath.basename, "dirname": posixpath.dirname, "splitext": posixpath.splitext, "split": posixpath.split,
             "join": posixpath.join, "normpath": posixpath.normpath, "relpath": lambda p, start=None: posixpath.relpath(vfs.abs(p), vfs.abs(start or ".")),
             "expanduser": lambda p: p, "expandvars": lambda p: p, "isabs": posixpath.isabs, "sep": "/", "commonpath": posixpath.commonpath,
@@ -698,14 +715,22 @@ class World:
             if isinstance(inp, bytes):
                 inp = inp.decode()
             paths += [p for p in (inp.split("\0") if z else inp.split("\n")) if p]
-        unknown = [f for f in flags if f not in ("-q", "--quiet", "-z", "--stdin", "--no-index")]
+        unknown = [f for f in flags if f not in ("-q", "--quiet", "-z", "--stdin", "--no-index", "-v", "--verbose")]
         if unknown:
             raise Unsupported(f"git check-ignore {unknown}")
         quiet = "-q" in flags or "--quiet" in flags
+        verbose = "-v" in flags or "--verbose" in flags
         if not paths:
             rc, out = 128, ""
-        elif quiet and len(paths) > 1:
+        elif quiet and (len(paths) > 1 or verbose):
             rc, out = 128, ""
+        elif verbose:
+            # git's documented behaviour: every path that matches a pattern is listed with that pattern -- a negated pattern
+            # too -- and the exit status is 0 as soon as something is listed
+            hit = [(p, "!" if self.vfs.abs(p) in self.vfs.reincluded else "") for p in paths
+                   if self.vfs.is_ignored(p) or self.vfs.abs(p) in self.vfs.reincluded]
+            rc = 0 if hit else 1
+            out = "".join(f".gitignore:1:{neg}{posixpath.basename(p)}\t{p}" + ("\0" if z else "\n") for p, neg in hit)
         else:
             ign = [p for p in paths if self.vfs.is_ignored(p)]
             rc = 0 if ign else 1
